@@ -22,8 +22,9 @@
 //! # Output lines
 //!
 //! `ok schema=<name:ty:id,…> frags=<id:phys:dels:<file>/<file>…,…> rows=<ordered scan>` with `<file>` = the data file's
-//! field ids joined by `.` (tombstones print as `-2`), `frags=-` when there is no fragment; or `err <kind>` with the kit's
-//! error kinds plus `parse` (line outside the grammar), `no_table`, `exists`.
+//! field ids joined by `.`, `frags=-` when there is no fragment; or `err <kind>` with the kit's error kinds plus `parse`
+//! (line outside the grammar, an op naming a column twice, rows that do not fit the schema), `no_table`, `exists`,
+//! `unreadable` (the op succeeded but the table can no longer be scanned: the case is dead, every later line prints `skip`).
 //!
 //! # Oracle (never looks at the Lean model)
 //!
@@ -35,7 +36,10 @@
 //! * `scan_differs_from_replay`: the whole scan equals the harness's own flat replay of the history (named columns of cells);
 //! * `field_ids_not_unique`: schema ids pairwise different, within a fragment no live id in two places, every id
 //!   <= `Manifest::max_field_id`; `new_field_id_not_fresh`: an id handed out by add / cast is stored by no data file of the
-//!   version before; `reopen_differs`: a fresh handle scans to the same rows.
+//!   version before; `reopen_differs`: a fresh handle scans to the same rows;
+//! * `fragment_without_data_files` (open known finding): after a drop the scan fails "Fragment N does not contain any data";
+//!   `valid_<op>_refused`, `invalid_<op>_accepted`, `failed_op_changed_table`, `<op>_panic`, `dead_file_kept`.
+//!   The Updater's documented refusal ("Missing too many rows in merge") is tagged, not counted.
 
 use std::collections::{BTreeMap, BTreeSet};
 use std::sync::Arc;
